@@ -108,14 +108,10 @@ theorem uploadFile_err {l : Local} {r : Remote} {s d : PPath} {e : Err} (h : upl
       · cases h
 
 theorem relativeOf_err {s d p : PPath} {wi : Bool} {e : Err} (h : relativeOf s d p wi = .error e) : e ≠ .fuel := by
-  unfold relativeOf at h
+  rw [relativeOf_eq] at h
   split at h
-  · split at h
-    · injection h with h; rw [← h]; simp
-    · cases h
-  · split at h
-    · injection h with h; rw [← h]; simp
-    · cases h
+  · injection h with h; rw [← h]; simp
+  · cases h
 
 /-- the children loop never reports fuel, and the directories it hands back are the listed directories -/
 theorem uploadChildren_shape (l : Local) (s d : PPath) (wi : Bool) : ∀ (paths : List PPath) (r : Remote),
